@@ -15,6 +15,10 @@ SEEDS = [
     ('closure_suffix', "s: {'a'}", "\n"),
     ('join_op', "s: ','", "{'a'}\n"),
     ('rule_def_op', "s", " 'a'\n"),
+    # a repetition suffix glued to a following '=': `}+=` is the closing brace and the override-list operator, guarded by !/\+=/ in every repetition production (seed C15-6)
+    ('join_suffix_before_eq', "s: ','%{'x'}", "= 'y' $\n"),
+    ('gather_suffix_before_eq', "s: ','.{'x'}", "= 'y' $\n"),
+    ('closure_suffix_before_eq', "s: {'x'}", "= 'y' $\n"),
     ('rule_def_op_bnf', "s:", "= 'a'\n"),
     # a comment between the rule head and the definition operator: only the void () of the rule production skips it
     ('rule_def_op_after_comment', "s (* c *)", " 'a'\n"),
@@ -35,7 +39,7 @@ SEEDS = [
     ('group_content', "s: (", ")\n"),
     ('optional_q', "s: 'a'", "\n"),
 ]
-QUICK = ['expr_start', 'prefix_op', 'naming_op', 'rule_def_op', 'rule_def_op_bnf', 'rule_def_op_after_comment', 'alert_level', 'params', 'leading', 'param_literal_prefix']
+QUICK = ['join_suffix_before_eq', 'expr_start', 'prefix_op', 'naming_op', 'rule_def_op', 'rule_def_op_bnf', 'rule_def_op_after_comment', 'alert_level', 'params', 'leading', 'param_literal_prefix']
 REGEN_QUICK = ['param_literal_prefix', 'rule_def_op']      # seeds that also run the parser regenerated from _tatsu.ebnf in the quick tier
 
 
